@@ -87,6 +87,9 @@ def run(ctx: Ctx) -> None:
         for scn, victim in scenarios(quick):
             steps = l1.solo_steps(scn)
             kk = kinds + ([("after", "oserror"), ("before", "clienterror")] if scn.backend != "local" else [])
+            if scn.backend == "local" and scn.name in ("f-append-ctx", "f-delete"):
+                # the flush of the temp file / of its directory fails inside the atomic write (1st / 2nd fsync of the call)
+                kk = kk + [("sys", "fsync1"), ("sys", "fsync2")]
             if quick and scn.name not in ("f-append-ctx", "f-append-s3cas"):
                 kk = [k_ for k_ in kk if k_[1] != "sysexit"]        # SystemExit everywhere only in the thorough tier
             jobs = [("list", s_) for s_ in l1.fault_schedules(scn, steps, victim, kk, stride=1)]
